@@ -761,6 +761,9 @@ func parseBinOps(expr string, n *promParser.BinaryExpr) (src []Source) {
 						n.Op,
 						ls.IsDead,
 					)
+				} else if !n.Op.IsComparisonOperator() {
+					// The result of arithmetic with an unknown value is not known.
+					side.KnownReturn = false
 				}
 				src = append(src, side)
 			}
@@ -773,6 +776,7 @@ func parseBinOps(expr string, n *promParser.BinaryExpr) (src []Source) {
 	case n.VectorMatching.Card == promParser.CardOneToOne:
 		rhs := walkNode(expr, n.RHS)
 		for _, s = range walkNode(expr, n.LHS) {
+			var isStatic bool
 			onLabels := joinLabels(s, n.VectorMatching)
 			if n.VectorMatching.On {
 				s.FixedLabels = true
@@ -807,6 +811,7 @@ func parseBinOps(expr string, n *promParser.BinaryExpr) (src []Source) {
 							n.Op,
 							s.IsDead,
 						)
+						isStatic = true
 					}
 				}
 			}
@@ -824,6 +829,10 @@ func parseBinOps(expr string, n *promParser.BinaryExpr) (src []Source) {
 				})
 			}
 			s.AlwaysReturns = joinAlwaysReturns(s, rhs)
+			if !isStatic && !n.Op.IsComparisonOperator() {
+				// The result of arithmetic we didn't calculate is not known.
+				s.KnownReturn = false
+			}
 			s.IsConditional, s.IsReturnBool = checkConditions(s, n.Op, n.ReturnBool)
 			src = append(src, s)
 		}
@@ -855,6 +864,8 @@ func parseBinOps(expr string, n *promParser.BinaryExpr) (src []Source) {
 				})
 			}
 			s.AlwaysReturns = joinAlwaysReturns(s, lhs)
+			// Labels come from this side but the value doesn't.
+			s.KnownReturn = false
 			s.IsConditional, s.IsReturnBool = checkConditions(s, n.Op, n.ReturnBool)
 			src = append(src, s)
 		}
@@ -883,6 +894,10 @@ func parseBinOps(expr string, n *promParser.BinaryExpr) (src []Source) {
 				})
 			}
 			s.AlwaysReturns = joinAlwaysReturns(s, rhs)
+			if !n.Op.IsComparisonOperator() {
+				// The result of arithmetic we didn't calculate is not known.
+				s.KnownReturn = false
+			}
 			s.IsConditional, s.IsReturnBool = checkConditions(s, n.Op, n.ReturnBool)
 			src = append(src, s)
 		}
